@@ -244,7 +244,7 @@ def main():
     print("MANIFEST.json: %d checks, %d not_applicable" % (len(checks), len(na)))
 
 
-SOURCE_COMMITS = ["c203823", "0fd70cf", "8261140", "84533cc", "edeae19", "d657645", "566cb9d", "703cc68", "c388d81", "759d47b", "5c1e00f", "c08711b", "eb5eb1e"]
+SOURCE_COMMITS = ["c203823", "0fd70cf", "8261140", "84533cc", "edeae19", "d657645", "566cb9d", "703cc68", "c388d81", "759d47b", "5c1e00f", "c08711b", "eb5eb1e", "0401e81"]
 
 if __name__ == "__main__":
     main()
